@@ -77,12 +77,26 @@ Proof.
   apply no_esc_brepeat. apply noescb_sound. reflexivity.
 Qed.
 
+Lemma no_esc_month_name : forall m, no_esc (month_name m).
+Proof.
+  intros m. unfold month_name.
+  assert (H : forall (l : list bytes) n, (forall x, In x l -> no_esc x) -> no_esc (nth n l [])).
+  { induction l as [|x l IH]; intros [|n] Hl; cbn [nth]; try exact no_esc_nil.
+    - apply Hl. left. reflexivity.
+    - apply IH. intros x0 Hx0. apply Hl. right. exact Hx0. }
+  apply H. intros x Hx. apply noescb_sound. cbv [long_months In] in Hx.
+  repeat (destruct Hx as [<-|Hx]; [reflexivity|]). destruct Hx.
+Qed.
+
 Lemma no_esc_format_date : forall toks civ, ~ In (Lit c_esc) toks -> no_esc (format_date toks civ).
 Proof.
   intros toks [[y m] d] H. unfold format_date. apply no_esc_concat. intros x Hx.
   apply in_map_iff in Hx. destruct Hx as (t & <- & Ht).
-  destruct t as [| | |c]; try apply no_esc_fmt_num.
-  apply no_esc_cons. split; [|exact no_esc_nil]. intros E. subst c. exact (H Ht).
+  destruct t as [| | | | | | | |c]; cbn [format_tok]; try apply no_esc_fmt_num.
+  - apply no_esc_app_i; [|apply no_esc_fmt_num]. destruct (d <? 10)%Z; [apply noescb_sound; reflexivity|exact no_esc_nil].
+  - apply no_esc_firstn, no_esc_month_name.
+  - apply no_esc_month_name.
+  - apply no_esc_cons. split; [|exact no_esc_nil]. intros E. subst c. exact (H Ht).
 Qed.
 
 (** *** runes: a rune 27 can only come from a byte 27, and is only encoded as one *)
